@@ -823,8 +823,82 @@ def _n9(tree, new_names):
 
 
 # ------------------------------------------------------------------------------------------------ driver
+# ------------------------------------------------------------------------------------------------ N13 match statements
+def _pattern_test(pat, subj):
+    """(test expression, [binding statements]) for the patterns that are spelled-out isinstance / equality tests, else None"""
+    load = lambda: copy.deepcopy(subj)  # noqa: E731
+    if isinstance(pat, ast.MatchClass) and not pat.patterns and not pat.kwd_patterns:
+        return ast.Call(func=ast.Name(id="isinstance", ctx=ast.Load()), args=[load(), copy.deepcopy(pat.cls)], keywords=[]), []
+    if isinstance(pat, ast.MatchOr):
+        parts = [_pattern_test(p, subj) for p in pat.patterns]
+        if any(p is None or p[1] for p in parts):
+            return None
+        classes = [p[0].args[1] for p in parts if isinstance(p[0], ast.Call) and getattr(p[0].func, "id", "") == "isinstance"]
+        if len(classes) == len(parts):
+            union = classes[0]
+            for c in classes[1:]:
+                union = ast.BinOp(left=union, op=ast.BitOr(), right=c)
+            return ast.Call(func=ast.Name(id="isinstance", ctx=ast.Load()), args=[load(), union], keywords=[]), []
+        return ast.BoolOp(op=ast.Or(), values=[p[0] for p in parts]), []
+    if isinstance(pat, ast.MatchValue):
+        return ast.Compare(left=load(), ops=[ast.Eq()], comparators=[copy.deepcopy(pat.value)]), []
+    if isinstance(pat, ast.MatchSingleton):
+        return ast.Compare(left=load(), ops=[ast.Is()], comparators=[ast.Constant(value=pat.value)]), []
+    if isinstance(pat, ast.MatchAs):
+        bind = [ast.Assign(targets=[ast.Name(id=pat.name, ctx=ast.Store())], value=load(), lineno=0, col_offset=0)] if pat.name else []
+        if pat.pattern is None:
+            return ast.Constant(value=True), bind
+        inner = _pattern_test(pat.pattern, subj)
+        return None if inner is None else (inner[0], inner[1] + bind)
+    return None
+
+
+def _n13(tree):
+    """`match subject: case Cls(): .. case A() | B(): .. case "x": .. case _: ..` (class patterns without sub-patterns, values,
+    wildcard, `as` bindings, guards) -> the equivalent if / elif chain, so that every analysis written for isinstance
+    dispatch sees the usual form"""
+    n = 0
+    for owner in list(ast.walk(tree)):
+        for field in ("body", "orelse", "finalbody"):
+            blk = getattr(owner, field, None)
+            if not isinstance(blk, list):
+                continue
+            for i, st in enumerate(list(blk)):
+                if not isinstance(st, ast.Match) or not _simple_arg(st.subject):
+                    continue
+                arms = []
+                ok = True
+                for case in st.cases:
+                    pt = _pattern_test(case.pattern, st.subject)
+                    if pt is None:
+                        ok = False
+                        break
+                    test, binds = pt
+                    if case.guard is not None:
+                        guard = case.guard
+                        if binds:  # the guard may read the binding: it denotes the (simple) subject there
+                            guard = _Subst({b.targets[0].id: st.subject for b in binds}).visit(copy.deepcopy(guard))
+                        case = ast.match_case(pattern=case.pattern, guard=guard, body=case.body)
+                        test = case.guard if isinstance(test, ast.Constant) and test.value is True else ast.BoolOp(op=ast.And(), values=[test, case.guard])
+                    arms.append((test, binds + case.body))
+                if not ok or not arms:
+                    continue
+                chain = None
+                for test, body in reversed(arms):
+                    if isinstance(test, ast.Constant) and test.value is True:
+                        chain = body
+                        continue
+                    chain = [ast.If(test=test, body=body, orelse=chain or [], lineno=st.lineno, col_offset=st.col_offset)]
+                blk[i:i + 1] = chain
+                n += 1
+    if n:
+        ast.fix_missing_locations(tree)
+    return n
+
+
 def normalise(tree, new_helpers=frozenset()):
     counts = {}
+    counts["N13"] = _n13(tree)
     if new_helpers:
         counts["N9"] = _n9(tree, new_helpers)
     idi = _Idioms()
